@@ -30,6 +30,7 @@ EXPLANATION = (
     "group unrolling on arbitrary graphs."
     ' R3.4 (added): the two direction tests of gather_conflicts run for every other present id (only the pair (arg, arg) is skipped). R3.9 (added): nobody but the declared setters of Arg/ArgGroup mutates a relation vector.'
     ' R3.4 (form-independent): ArgGroup::conflicts is read unconditionally — neither under an `if !multiple` nor behind a `.filter(!multiple)`.'
+    " R3.A accessor layer (lib/accessors.py): for the is_*_set / get_* accessors this property's rules name — the bool builder sets and unsets one flag on the right edges and the predicate reads that same flag; builder scope (global/local) as in audit/setting_scope.tsv; no two predicates/builders share a flag; setting/unset_setting/global_setting/is_set forward to the right flag word, the flag word is |=bit / &=!bit / &bit!=0 with bit = 1<<discriminant, _propagate_subcommand hands g_settings to the child's settings and g_settings; plain field getters return their field."
 )
 TRUSTED = ["rustc MIR", "clapfacts"]
 ASSUMPTIONS = ["FlatMap iteration yields every entry once"]
